@@ -338,8 +338,18 @@ theorem mk_iff (hT : ∀ a b, TyWF a = true → TyWF b = true → tyKey a = tyKe
     cases y with
     | uri s' => simp [mk, mark, kb, veq]
     | _ => exact other _ _ cx cy (by simp [kind])
-  · intro v y cx; simp [cmp] at cx
-  · intro o rs y cx; simp [cmp] at cx
+  · intro v y cx cy _
+    cases y with
+    | semver w =>
+      simp only [cmp] at cx cy
+      simp [mk, mark, kb, veq, verStr_iff cx cy]
+    | _ => exact other _ _ cx cy (by simp [kind])
+  · intro o rs y cx cy _
+    cases y with
+    | vrange o' rs' =>
+      simp only [cmp, Bool.and_eq_true, List.isEmpty_iff, List.all_eq_true] at cx cy
+      simp [mk, mark, kb, veq, rangeStr, cx.1, cy.1, normStr_iff cx.2 cy.2]
+    | _ => exact other _ _ cx cy (by simp [kind])
   · intro a n m y cx; simp [cmp] at cx
   · intro n as _ y cx; simp [cmp] at cx
   · intro n t hv v c _ y cx; simp [cmp] at cx
@@ -436,8 +446,8 @@ theorem mk_imp (hT : ∀ a b, TyWF a = true → TyWF b = true → tyKey a = tyKe
   · intro n y; exact leaf _ y rfl
   · intro a b y; exact leaf _ y rfl
   · intro s y; exact leaf _ y rfl
-  · intro v y cx; simp [cmp] at cx
-  · intro o rs y cx; simp [cmp] at cx
+  · intro v y; exact leaf _ y rfl
+  · intro o rs y; exact leaf _ y rfl
   · intro a n m y cx; simp [cmp] at cx
   · intro n as _ y cx; simp [cmp] at cx
   · intro n t hv v c _ y cx; simp [cmp] at cx
